@@ -393,6 +393,8 @@ class Frame(ContainerOperand):
                         )
                 own_index = True
 
+            row_count = len(index)
+
             def blocks() -> tp.Iterator[np.ndarray]:
                 for frame in frames:
                     if len(frame.index) != len(index) or (frame.index != index).any():
@@ -419,6 +421,8 @@ class Frame(ContainerOperand):
                         union=union,
                         )
                 own_columns = True
+
+            row_count = sum(len(f._index) for f in frames)
 
             def blocks() -> tp.Iterator[np.ndarray]:
                 type_blocks = []
@@ -455,7 +459,8 @@ class Frame(ContainerOperand):
         else:
             block_gen = blocks
 
-        return cls(TypeBlocks.from_blocks(block_gen()),
+        # if no columns remain, no blocks are yielded
+        return cls(TypeBlocks.from_blocks(block_gen(), shape_reference=(row_count, 0)),
                 index=index,
                 columns=columns,
                 name=name,
